@@ -244,6 +244,11 @@ pub fn run(cx: &mut Cx) {
     for k in ["compile/nested", "compile/not-nested", "verdict/match", "verdict/no-match", "names/mispairing-not-in-expansion", "depth/2", "depth/3", "groups/3"] {
         cx.ev.require(k);
     }
+    if cx.tier != Tier::Mini {
+        for k in ["flat-groups", "flat-groups-thousands", "nested-single", "nested-alternatives", "two-way-groups", "three-way-groups"] {
+            cx.ev.require(&format!("structural/{k}"));
+        }
+    }
     let cap = cx.pick_tier(16usize, 64, 64, 4096);
     let n = cx.per_shard(40, 2_000, 40_000, 400_000);
     let mut r = cx.stream("trees");
